@@ -5,6 +5,7 @@ import (
 	"go/token"
 	"go/types"
 	"os"
+	"sort"
 
 	"golang.org/x/tools/go/ssa"
 )
@@ -399,6 +400,13 @@ func (a *FuncAn) hoist(g Lin) (string, bool) {
 	}
 	e.hoistBusy[f] = true
 	defer delete(e.hoistBusy, f)
+	sort.SliceStable(sites, func(i, j int) bool {
+		if sites[i].Parent() != sites[j].Parent() {
+			return sites[i].Parent().String() < sites[j].Parent().String()
+		}
+		return sites[i].Pos() < sites[j].Pos()
+	})
+	failed, trackedFail, untracked := false, false, ""
 	for _, c := range sites {
 		ca := e.AnalyzeCtx(c.Parent())
 		if ca == nil || !ca.Converged {
@@ -428,17 +436,31 @@ func (a *FuncAn) hoist(g Lin) (string, bool) {
 			if _, ok := ca.hoistWithProver(pb, l, 1); ok {
 				continue
 			}
-			// the call site would have to establish it, and what it has there is a value outside its tracked model
-			if why, un := ca.untrackedIn(l); un {
-				a.hoistUntracked = "at the call site in " + FuncShort(c.Parent()) + " it depends on " + why
-			} else if why, un := ca.untrackedNear(c.Block(), l); un {
-				a.hoistUntracked = "at the call site in " + FuncShort(c.Parent()) + " it is known only through " + why
-			}
+			// the call site would have to establish it. Every site is examined: one site that fails on values the
+			// engine tracks is a missing guard whatever the others are; a failure that only concerns a value outside
+			// the tracked model makes the obligation undecided (the verdict must not depend on which site is seen first)
 			if os.Getenv("LW_HOISTDEBUG") != "" {
 				fmt.Fprintf(os.Stderr, "hoist %s: goal %s fails at site %s in %s: site goal %s; facts %s\n", FuncShort(f), g.String(), c.String(), FuncShort(c.Parent()), l.String(), ca.factsText(c.Block(), l))
 			}
-			return "", false
+			failed = true
+			if why, un := ca.untrackedIn(l); un {
+				if untracked == "" {
+					untracked = "at the call site in " + FuncShort(c.Parent()) + " it depends on " + why
+				}
+			} else if why, un := ca.untrackedNear(c.Block(), l); un {
+				if untracked == "" {
+					untracked = "at the call site in " + FuncShort(c.Parent()) + " it is known only through " + why
+				}
+			} else {
+				trackedFail = true
+			}
 		}
+	}
+	if failed {
+		if !trackedFail {
+			a.hoistUntracked = untracked
+		}
+		return "", false
 	}
 	return fmt.Sprintf("established at all %d call sites of %s", len(sites), FuncShort(f)), true
 }
